@@ -500,7 +500,12 @@ def c11(ctx):
     q = ctx.quick
     ctx.design("NotifQueue", "MC_NotifQueue_quick.cfg" if q else "MC_NotifQueue_thorough.cfg")
     beh = ctx.generate("NotifQueue", "MC_NotifQueue_gen.cfg", num=1500 if q else 30000, depth=20)
-    if not ctx.gv("tlc-schedules", "Trace_NotifQueue", ["queue"], inputs=beh):
+    # the very first Add for a table against concurrent Len polls of that table (what the replication worker's statistics
+    # do every 50 ms): 22 never-seen tables per round, 150 rounds per behaviour; every waiter must be answered by the Notify
+    if not ctx.gv("first-add-against-len", "Trace_NotifQueue", ["queue", "--seed", str(seed()), "--n", str(12 if q else 400), "--firstadd", "150"], racy=True):
+        return
+    # (the queue runs its own goroutine: a rejection is confirmed by one reproduction in six re-executions or three full runs)
+    if not ctx.gv("tlc-schedules", "Trace_NotifQueue", ["queue"], inputs=beh, racy=True):
         return
     # long random schedules (20 waiters, revisions 0..11, 60 steps) and the real ForwardingKVServer over the real queue
     if not ctx.gv("random-schedules", "Trace_NotifQueue", ["queue", "--seed", str(seed()), "--n", str(300 if q else 5000)], racy=True):
